@@ -46,6 +46,8 @@ def mux_spec(inputs, pal=0, rs_list=False, rails=False, by_rail=False, below="st
         a["rs"] = [_r(args["rs"] * (1 + 0.5 * j)) for j in range(k)]
     recs = {c["n"]: c for c in comps}
     pdes = [recs[e]["r"] if (by_rail and recs[e]["r"]) else e for e in ends]
+    if order:  # priority order different from creation order
+        pdes = [pdes[j] for j in order]
     comps.append(dict(n="M", k=kind, a=a, p=pdes, g="", r="RM" if rails else "", pc=None, lim=None, plist=True))
     if below in ("std", "deep"):
         kind, args = L["IL"]
